@@ -9,4 +9,6 @@ require (
 	pgregory.net/rapid v1.3.0
 )
 
+require github.com/google/go-cmp v0.7.0 // indirect
+
 replace github.com/openconfig/goyang => /repo
